@@ -605,6 +605,8 @@ def op_stock(st, op, info):
         kw[role] = arr
     info.inputs = given
     cls = {"simple": SimpleFlowDrivenStock, "inflow": InflowDrivenDSM, "stockdriven": StockDrivenDSM}[op["cls"]]
+    if op["cls"] == "stockdriven" and op.get("solver"):
+        kw["solver"] = op["solver"]
     if op["cls"] != "simple":
         lt = op.get("lt", "class")
         if lt == "class":
@@ -670,6 +672,22 @@ def op_lifetime(st, op, info):
         call(st, op, thunk, info)
 
 
+def op_stock_poison(st, op, info):
+    """the user writes a NaN into the driver of the last label combination of a stock (earlier combinations stay fine)"""
+    if not st.stocks:
+        return
+    stock = st.stocks[op.get("k", 0) % len(st.stocks)]
+    if stock.stock.values.ndim < 2:
+        return
+    info.kind = "stock_poison"
+    info.inplace = True
+    info.target = stock.stock
+    stock.stock.values[(slice(None),) + (-1,) * (stock.stock.values.ndim - 1)] = np.nan
+    stock.inflow.values[(slice(None),) + (-1,) * (stock.inflow.values.ndim - 1)] = np.nan
+    st.fault("nan_in_last_series_of_driver")
+    info.outcome = "ret"
+
+
 def op_stock_compute(st, op, info):
     """compute() on a stock built earlier in this history - with parameters unset / negative / fine (C13: a compute that raises changes nothing)"""
     if not st.stocks:
@@ -680,12 +698,21 @@ def op_stock_compute(st, op, info):
     info.target = stock.stock
     lt = getattr(stock, "lifetime_model", None)
     how = op.get("prms", "keep")
+    if how == "nan_last_series":
+        how = "good"
     if lt is not None and how != "keep":
         names = list(lt.prms)
         vals = {"mean": 3.0, "std": 1.0, "weibull_shape": 2.0, "weibull_scale": 3.0}
-        kw = {n: (vals[n] if how == "good" else -vals[n]) for n in names}
+        kw = {n: (vals[n] if how != "bad" else -vals[n]) for n in names}
         if how == "bad":
             st.fault("negative_lifetime_parameter")
+        if how == "singular_last":
+            # per-label parameters: the last label combination gets a zero lifetime (singular survival table there)
+            arr = np.full(stock.dims.shape, vals[names[0]])
+            if arr.ndim >= 2:
+                arr[(slice(None),) + (-1,) * (arr.ndim - 1)] = 0.0
+            kw[names[0]] = arr
+            st.fault("singular_parameters_in_last_series")
         try:
             lt.set_prms(**kw)
         except Exception:  # noqa
@@ -765,6 +792,6 @@ def op_stock_convert(st, op, info):
         info.stock = r
 
 
-HANDLERS = {"stock_convert": op_stock_convert, "system": op_system, "stock_compute": op_stock_compute, "lifetime": op_lifetime, "mk": op_mk, "arith": op_arith, "reduce": op_reduce, "slice": op_slice, "setitem": op_setitem,
+HANDLERS = {"stock_poison": op_stock_poison, "stock_convert": op_stock_convert, "system": op_system, "stock_compute": op_stock_compute, "lifetime": op_lifetime, "mk": op_mk, "arith": op_arith, "reduce": op_reduce, "slice": op_slice, "setitem": op_setitem,
             "set_values": op_set_values, "inplace_unary": op_inplace_unary, "df": op_df, "split": op_split_stack,
             "stack": op_split_stack, "stock": op_stock}
